@@ -216,6 +216,29 @@ func expiryScripts() [][]Step {
 		// the method before the expiry, waiters see the expiry themselves
 		res = append(res, []Step{{Op: "put", K: 0, E: "short"}, {Op: "start", K: 0, V: "cur"}, t, {Op: "start", K: 0, V: "cur"}, {Op: "expire"}, {Op: "get", K: 0}})
 	}
+	// a waiter that gives up before the expiry must not take the others' wake-up with it: every proper non-empty
+	// subset of 2 or 3 waiters parked on a record with a real expiry is cancelled (in both orders) before the record
+	// expires; nothing else touches the key, so the remaining waiters have to notice the expiry by themselves
+	for n := 2; n <= 3; n++ {
+		for mask := 1; mask < (1<<n)-1; mask++ {
+			for rev := 0; rev < 2; rev++ {
+				ops := []Step{{Op: "put", K: 0, E: "short"}}
+				for i := 0; i < n; i++ {
+					ops = append(ops, Step{Op: "start", K: 0, V: "cur"})
+				}
+				for j := 0; j < n; j++ {
+					i := j
+					if rev == 1 {
+						i = n - 1 - j
+					}
+					if mask&(1<<i) != 0 {
+						ops = append(ops, Step{Op: "cancel", W: i})
+					}
+				}
+				res = append(res, append(ops, Step{Op: "expire"}, Step{Op: "get", K: 0}))
+			}
+		}
+	}
 	return res
 }
 
